@@ -25,6 +25,10 @@ pub mod globref {
     /// Parses a glob; None if it uses constructs the documentation does not define
     /// (unbalanced brackets, `!()`, `[^..]`, empty class, dangling escape).
     pub fn parse(glob: &str) -> Option<Vec<Node>> {
+        // `**(` can be read as `**` + `(` or as `*` + `*(`: the documentation does not say which
+        if glob.contains("**(") {
+            return None;
+        }
         let g: Vec<char> = glob.chars().collect();
         let (seq, i) = parse_seq(&g, 0, "")?;
         if i != g.len() {
@@ -106,6 +110,8 @@ pub mod globref {
                     i = j + 1;
                 }
                 '}' | ')' | ']' if stop.is_empty() => return None,
+                // a bare parenthesis / brace inside a group is not defined by the documentation
+                '(' | '{' if !stop.is_empty() => return None,
                 _ => {
                     out.push(Node::Lit(c));
                     i += 1;
